@@ -139,6 +139,8 @@ class TimeKeeper:
         return float(delta / np.timedelta64(1, unit))
 
     def step2time(self, step: int) -> np.datetime64:
+        if self.time_reversal:
+            return self.start_time - step * self.dt
         return self.start_time + step * self.dt
 
     def time2step(self, time_: Time) -> int:
